@@ -11,7 +11,7 @@ use crate::oracle::serve::{
 use crate::report::{hash_of, par_for, threads, Run, Stats, Tier};
 use serde_json::json;
 
-pub const HORIZON: usize = 200;
+pub const HORIZON: usize = 5000;
 
 fn case_json(req: &Req, ent: &EntSpec, extra: usize) -> serde_json::Value {
     json!({"engine": "serve_mc", "request": req.to_json(), "entity": ent_to_json(ent), "extra_polls": extra})
@@ -128,15 +128,43 @@ fn expected_calls(m: &Model) -> Vec<Vec<(u64, u64)>> {
 /// Enumerates honouring script vectors for a request: the first call gets every script, the
 /// later calls (multipart) rotate through the list so that every part sees every script at
 /// least once without forming the full product.
+/// A part delivered byte by byte (up to 12 chunks) with three Pending polls in a row before
+/// every chunk and an empty chunk in between: the "long" entity-stream answer.
+fn long_script(n: u64) -> Script {
+    use crate::ent::Ev;
+    let mut evs = Vec::new();
+    let pieces = n.min(12);
+    let mut left = n;
+    for i in 0..pieces {
+        evs.extend([Ev::Pending, Ev::Pending, Ev::Pending]);
+        let d = if i + 1 == pieces { left } else { 1 };
+        evs.push(Ev::Data(d));
+        left -= d;
+        if i % 2 == 0 {
+            evs.push(Ev::Data(0));
+        }
+    }
+    if n == 0 {
+        evs.extend([Ev::Pending, Ev::Pending, Ev::Pending, Ev::Data(0)]);
+    }
+    Script::of(evs)
+}
+
 fn script_vectors(calls: &[(u64, u64)], kmax: usize, dev: usize, max_events: usize, full_product_upto: usize) -> Vec<Vec<Script>> {
     if calls.is_empty() {
         return vec![vec![]];
     }
+    let mut out = script_vectors_inner(calls, kmax, dev, max_events, full_product_upto);
+    out.push(calls.iter().map(|(a, b)| long_script(b - a)).collect());
+    out
+}
+
+fn script_vectors_inner(calls: &[(u64, u64)], kmax: usize, dev: usize, max_events: usize, full_product_upto: usize) -> Vec<Vec<Script>> {
     let per: Vec<Vec<Script>> = calls
         .iter()
         .map(|(a, b)| gen::honour_scripts(b - a, kmax, dev, max_events))
         .collect();
-    let total: usize = per.iter().map(|p| p.len()).product();
+    let total: usize = per.iter().fold(1usize, |a, p| a.saturating_mul(p.len()));
     let mut out = Vec::new();
     if total <= full_product_upto {
         let mut idx = vec![0usize; per.len()];
@@ -380,8 +408,8 @@ fn boundary_positions(l: u64) -> Vec<u128> {
 pub fn run_c02(run: &mut Run) -> Stats {
     let tier = run.tier;
     let small: Vec<u64> = vec![1, 2, 3, 9, 10, 11];
-    let large: Vec<u64> = tier.pick(vec![100, 240, 65_537, 1 << 32, 1 << 63, u64::MAX], vec![100, 240, 1000, 65_537, (1 << 32) - 1, 1 << 32, (1 << 32) + 1, (1 << 63) - 1, 1 << 63, u64::MAX - 1, u64::MAX]);
-    let (kmax, dev, max_events) = tier.pick((4, 2, 5), (4, 2, 6));
+    let large: Vec<u64> = tier.pick(vec![100, 240, 65_537, 1 << 32, 1 << 63, u64::MAX], vec![99, 100, 101, 159, 160, 161, 162, 240, 400, 1000, 65_535, 65_536, 65_537, (1 << 32) - 1, 1 << 32, (1 << 32) + 1, (1 << 63) - 1, 1 << 63, u64::MAX - 1, u64::MAX]);
+    let (kmax, dev, max_events) = tier.pick((4, 2, 5), (4, 3, 7));
     run.rule = "GET x every single byte-range-spec (three forms) with positions 0..=L+2 for L in {1,2,3,9,10,11} and boundary positions {0,1,L/2,L-2,L-1,L,L+1,2^32,2^63,2^64-2,2^64-1} for large L, plus the Range-less 200, x every contract-honouring chunking of the predicted get_range call; oracle = the response's own Content-Range parsed back + descriptor-exact comparison of every delivered byte with the position-dependent entity content + recorded get_range arguments. non-trivial = distinct (Range value, L, chunking) answered 200/206 with a body".into();
     run.bounds = json!({"small_L": small, "large_L": large.iter().map(|l| l.to_string()).collect::<Vec<_>>(), "kmax_chunks": kmax, "benign_deviations": dev, "max_events": max_events});
     run.assumptions.push("entity streams honour the Entity contract".into());
@@ -482,8 +510,12 @@ pub fn run_c03(run: &mut Run) -> Stats {
         join_sets(&specs, 1, &seps, &mut v);
         join_sets(&specs, 2, &[","], &mut v);
         if n_max >= 3 {
-            let thin: Vec<String> = specs.iter().step_by(tier.pick(7, 3)).cloned().collect();
+            let thin: Vec<String> = specs.iter().step_by(tier.pick(7, 1)).cloned().collect();
             join_sets(&thin, 3, &[", "], &mut v);
+            if tier == Tier::Thorough {
+                let thin4: Vec<String> = specs.iter().step_by(9).cloned().collect();
+                join_sets(&thin4, 4, &[","], &mut v);
+            }
         }
         headers.extend(v.into_iter().map(|h| (l, h)));
     }
@@ -510,6 +542,21 @@ pub fn run_c03(run: &mut Run) -> Stats {
                 let mut specs2: Vec<String> = (0..n - 1).map(|k| format!("{k}-{k}")).collect();
                 specs2.push(format!("-{rest}"));
                 headers.push((l, format!("bytes={}", specs2.join(", "))));
+            }
+        }
+    }
+    // (e) many specs: n small satisfiable ranges (n up to 40), with one unsatisfiable / suffix /
+    // open spec at each position
+    for l in [5000u64, 1 << 33, u64::MAX] {
+        for n in [4usize, 5, 6, 8, 9, 12, 17, 40] {
+            let base: Vec<String> = (0..n as u64).map(|k| format!("{}-{}", 10 * k, 10 * k + (k % 2))).collect();
+            headers.push((l, format!("bytes={}", base.join(","))));
+            for pos in 0..n {
+                for odd in [format!("{l}-"), "-3".to_string(), format!("{}-", l - 2), "7-6".to_string()] {
+                    let mut v = base.clone();
+                    v[pos] = odd;
+                    headers.push((l, format!("bytes={}", v.join(if pos % 2 == 0 { "," } else { ", " }))));
+                }
             }
         }
     }
@@ -548,6 +595,19 @@ pub fn run_c03(run: &mut Run) -> Stats {
 fn tag_lists(k: usize, seps: &[&str]) -> Vec<Option<Vec<u8>>> {
     let alphabet: [&str; 5] = ["\"v1\"", "W/\"v1\"", "\"zz\"", "W/\"zz\"", "\"a, b\""];
     let mut out: Vec<Option<Vec<u8>>> = vec![None, Some(b"*".to_vec())];
+    // long lists (5..12 tags, some of them long), with the one tag that matters at each position
+    if k >= 3 {
+        let filler: Vec<String> = (0..12).map(|i| if i % 4 == 3 { format!("\"{}\"", "x".repeat(40 + 30 * i)) } else { format!("\"f{i}, z\"") }).collect();
+        for n in [5usize, 8, 12] {
+            for pos in 0..n {
+                for special in ["\"v1\"", "W/\"v1\""] {
+                    let mut tags: Vec<&str> = filler[..n].iter().map(|s| s.as_str()).collect();
+                    tags[pos] = special;
+                    out.push(Some(tags.join(if pos % 2 == 0 { ", " } else { "," }).into_bytes()));
+                }
+            }
+        }
+    }
     for n in 1..=k {
         let mut idx = vec![0usize; n];
         'outer: loop {
@@ -659,7 +719,7 @@ pub fn run_c05(run: &mut Run) -> Stats {
         if_ranges.push(fmt_asctime(d).into_bytes());
     }
     let alpha: [u8; 7] = [b'"', b'W', b'/', b'v', b'1', b' ', 0xff];
-    let maxlen = tier.pick(4, 5);
+    let maxlen = tier.pick(4, 6);
     let mut cur: Vec<Vec<u8>> = vec![vec![]];
     for _ in 0..maxlen {
         let mut next = Vec::new();
@@ -749,6 +809,22 @@ fn multi_range_sets(l: u64, tier: Tier) -> Vec<Vec<(u64, u64)>> {
                 }
             }
         }
+    }
+    if tier == Tier::Thorough {
+        for i in 0..b.len() {
+            for j in 0..b.len() {
+                for k in 0..b.len() {
+                    for m in 0..b.len() {
+                        v.push(vec![b[i], b[j], b[k], b[m]]);
+                    }
+                }
+            }
+        }
+    }
+    // many parts (a stated subset: one walk per count)
+    for n in [9usize, 10, 12, 15, 16, 17, 24, 33, 40] {
+        v.push((0..n).map(|k| b[k % b.len()]).collect());
+        v.push((0..n as u64).map(|k| (20 + 3 * k, 20 + 3 * k + (k % 3))).collect());
     }
     for n in 4..=8usize {
         for rot in 0..b.len() {
@@ -892,7 +968,7 @@ pub fn run_c07(run: &mut Run) -> Stats {
 pub fn run_c13(run: &mut Run) -> Stats {
     let tier = run.tier;
     let alpha: [u8; 14] = [b'0', b'1', b'9', b'-', b',', b' ', b'\t', b'=', b'"', b'W', b'/', b'*', b'+', 0xff];
-    let maxlen = tier.pick(4, 5);
+    let maxlen = tier.pick(4, 6);
     let prefixes: [&[u8]; 4] = [b"", b"bytes=", b"W/\"", b"\""];
     let hdrs = ["range", "if-range", "if-match", "if-none-match", "if-modified-since", "if-unmodified-since"];
     let methods = ["GET", "HEAD", "POST", "PUT", "DELETE", "OPTIONS", "PATCH", "TRACE", "CONNECT", "FOO", "get"];
@@ -1038,7 +1114,7 @@ pub fn run_c13(run: &mut Run) -> Stats {
 // C14
 
 pub fn run_c14(run: &mut Run) -> Stats {
-    let etags: Vec<Option<Vec<u8>>> = vec![None, Some(b"\"v1\"".to_vec()), Some(b"W/\"v1\"".to_vec())];
+    let etags: Vec<Option<Vec<u8>>> = vec![None, Some(b"\"v1\"".to_vec()), Some(b"W/\"v1\"".to_vec()), Some(format!("\"{}\"", "e".repeat(300)).into_bytes())];
     let hsets = gen::header_sets();
     // mtime index 6 = one day in the future (computed per execution)
     let past: Vec<Option<std::time::SystemTime>> = vec![None, Some(gen::t(0, 0)), Some(gen::t(gen::LM, 0)), Some(gen::t(gen::LM, 1_000_000)), Some(gen::t(gen::LM, 1)), Some(gen::t(gen::LM, 999_999_999))];
